@@ -213,7 +213,7 @@ def _has_panic(steps):
     return False
 
 
-def run_items(items, batch_steps=120, t_batch=400, t_alone=2000, stats=None, prelude=(), cls_of=None,
+def run_items(items, batch_steps=120, t_batch=400, t_alone=3000, stats=None, prelude=(), cls_of=None,
               rounds=6):
     """items: list of dicts with "steps" (the statements of one mini-session WITHOUT the sentinel
     declaration) and "group" (consecutive items of equal group may share an interpreter session).
